@@ -178,6 +178,34 @@ def scan_into_iter():
     return out
 
 
+USE_AS = re.compile(r"^pub use\s+(.+);\s*$")
+
+
+def scan_reexports():
+    """`pub use path::X as Y;` and `pub use path::{A as B, ..};` at module level: the alias is a
+    public name of its own (the declaration may live in a private module under another name)"""
+    out = []
+    src = os.path.join(REPO, "src")
+    for root, _, files in sorted(os.walk(src)):
+        for f in sorted(files):
+            if not f.endswith(".rs"):
+                continue
+            full = os.path.join(root, f)
+            rel = os.path.relpath(full, src)
+            if rel.startswith("tests_cfg"):
+                continue
+            for l in open(full, encoding="utf-8"):
+                if l.startswith("#[cfg(test)]"):
+                    break
+                m = USE_AS.match(l)
+                if not m or " as " not in m.group(1):
+                    continue
+                for alias in re.findall(r"\bas\s+([A-Z][A-Za-z0-9_]*)", m.group(1)):
+                    pre = module_prefix(rel if not rel.endswith("lib.rs") else "x.rs")
+                    out.append((alias, pre, [], rel))
+    return out
+
+
 def obligations(found):
     obs = []  # (fn_name, type_expr, cfgs, origin)
     unlisted = []
@@ -209,6 +237,8 @@ def obligations(found):
         obs.append(("ob_extra_%d" % k, t, [], "extra"))
     # iterator types that public types hand out (`impl IntoIterator for X`): they are part of the
     # value API although no `pub struct` line declares them
+    for k, (alias, prefix, cfgs, rel) in enumerate(scan_reexports()):
+        obs.append(("ob_reexport_%s_%d" % (alias, k), prefix + alias, cfgs, rel))
     for k, (label, texpr, cfgs, rel) in enumerate(scan_into_iter()):
         obs.append(("ob_assoc_%s_%d" % (label, k), texpr, cfgs, rel))
     return obs, unlisted
